@@ -95,3 +95,24 @@ Definition ev (k : mkind) (c a b : Z) (key : string) (dt : Z) : mev := mkev k c 
 (* a call without a state dictionary: tokens only *)
 Definition tokenise_ns (c : cfg) (tracks : list (list msg)) : string :=
   show_res (fun x => show_toks (fst x)) (tokenise c (tstate0 c) tracks).
+
+(* ---- Bar / Track / Composition *)
+From Model Require Import Comp.
+Open Scope string_scope.
+Definition show_cbar (b : cbar) : string := show_sig (cb_num b, cb_den b, cb_key b) ++ "=" ++ show_seq (cb_seq b).
+Definition show_ctrack (t : ctrack) : string := show_opt show_Z (ct_program t) ++ ">" ++ sjoin "&" (map show_cbar (ct_bars t)).
+Definition show_comp (c : comp) : string := sjoin "|" (map show_ctrack c).
+(* from_sequences; copy; transpose one bar of the COPY; then: original, copy, the copy's sequences *)
+Definition comp_scenario (rels : list (list msg)) (meta ti bi : nat) (k : Z) : string :=
+  match comp_from_sequences rels meta with
+  | Err e => "!" ++ show_err e
+  | Ok c =>
+      match comp_copy c with
+      | Err e => show_comp c ++ "#!" ++ show_err e
+      | Ok cp =>
+          match comp_on_bar cp ti bi (fun b => do '(b', _) <- cbar_transpose b k; Ok b') with
+          | Err e => show_comp c ++ "#" ++ show_comp cp ++ "#!" ++ show_err e
+          | Ok cp' => show_comp c ++ "#" ++ show_comp cp' ++ "#" ++ show_res (fun l => sjoin "|" (map show_seq l)) (comp_to_sequences cp')
+          end
+      end
+  end.
